@@ -14,7 +14,7 @@ import z3
 from symx import core, npx
 from symx.core import Sym, SymC, lift, RV, UF
 from symx.report import Check, q, cex, note
-from props.volt_common import (B, PF, Q, A, volt_patches, MemFS, pfb_spec, cparts, diff_terms)
+from props.volt_common import (B, PF, Q, A, DS, volt_patches, MemFS, pfb_spec, cparts, diff_terms)
 
 RS = z3.RealSort()
 SF = z3.Function('S', RS, RS, RS, RS)          # sample(ant, pol, k)
@@ -403,6 +403,93 @@ def job_partition(P, taps, Wb, npol, bits):
     return recs
 
 
+def job_partition_real_quantizers(period, Wb, npol):
+    """the REAL RealQuantizer / ComplexQuantizer objects (their refresh schedule and caches) in the pipeline, with
+    statistics held from the first call (period <= 0, or longer than the recording): the recorded bytes are the same
+    terms for every num_subblocks.  estimate_stats is a function of the first sample it is shown (a common prefix);
+    the element-wise map is an uninterpreted function of (value, mean, deviation)."""
+    from props.C12 import quantize_real_stub, SMU, SSD
+    recs = []
+    P, taps = 4, 2
+
+    def stats_first(voltages, stats_calc_num_samples=10000, **kw):
+        fr, fi = cparts(voltages.flat[0] if isinstance(voltages, np.ndarray) else voltages[0])
+        sd = Sym(SSD(fr, RV(1)))
+        core.side(sd.t > 0)
+        return Sym(SMU(fr, RV(1))), sd
+    outs = {}
+    for nsb in range(1, Wb + 2):
+        fs = MemFS()
+        with volt_patches(opener=fs.open, extra=[(DS, dict(estimate_stats=stats_first)), (Q, dict(quantize_real=quantize_real_stub))]):
+            def run():
+                ant = FakeAntenna(npol)
+                fb = PF.PolyphaseFilterbank(num_taps=taps, num_branches=P)
+                be = B.RawVoltageBackend(ant, Q.RealQuantizer(num_bits=8, stats_calc_period=period, stats_calc_num_samples=1), fb,
+                                         Q.ComplexQuantizer(num_bits=8, stats_calc_period=period, stats_calc_num_samples=1), start_chan=0, num_chans=P // 2,
+                                         block_size=taps * Wb * (P // 2) * 2 * npol, blocks_per_file=2, num_subblocks=nsb)
+                w = npx.sarr([Sym(z3.Real(f'w_{m}')) for m in range(taps * P)])
+                for p in range(npol):
+                    be.filterbank[0][p].window = w
+                    be.filterbank[0][p].channelized_stds = npx.sarr([Sym(RV(1)), Sym(RV(1))])
+                be.record('/mem/o', num_blocks=2, length_mode='num_blocks', header_dict={}, digitize=True, verbose=False, load_template=False)
+            leaf = core.run_single(run, [])
+        data = []
+        for nm in fs.names():
+            data += [list(x.items) for x in fs.files[nm] if isinstance(x, npx.SymBytes)]
+        outs[nsb] = (data, leaf.side)
+    ref, _ = outs[1]
+    for nsb, (data, side) in outs.items():
+        name = f"C02:partition-real-quantisers:{(period, Wb, npol)}:nsb{nsb}"
+        dis = []
+        ok = len(data) == len(ref) == 2 and all(len(a) == len(b) for a, b in zip(data, ref))
+        if ok:
+            for a, b in zip(data, ref):
+                for x, y in zip(a, b):
+                    d = z3.simplify(lift(x) - lift(y))
+                    if not (z3.is_rational_value(d) and d.numerator_as_long() == 0):
+                        dis.append(d != 0)
+        r, _ = core.check(([z3.Or(*dis)] if dis else [z3.BoolVal(False)]) if ok else [z3.BoolVal(True)], timeout_ms=60000)
+        recs.append(q(name, r, by_solver=len(dis)))
+        if r == 'sat':
+            recs.append(cex('C02:partition:real-quantisers', f'with quantiser statistics held from the first call (period {period}), num_subblocks={nsb} records other bytes than num_subblocks=1',
+                            dict(fn='partition_real', period=period, Wb=Wb, npol=npol, nsb=nsb), name=name))
+    r, _ = core.check([lift(ref[0][0]) != lift(ref[1][0])])
+    recs.append(q(f"C02:partition-real-quantisers:{(period, Wb, npol)}:twin", r, expect='sat'))
+    return recs
+
+
+def replay_partition_real(p):
+    """real recordings with real quantisers holding their first statistics: every partition writes the same bytes"""
+    import os
+    import shutil
+    import tempfile
+    from setigen.voltage import backend as bk, polyphase_filterbank as pf, quantization as qz, antenna as an
+    period, Wb, npol = p['period'], p['Wb'], p['npol']
+    d = tempfile.mkdtemp(prefix='c02p_', dir='/var/tmp')
+    try:
+        outs = {}
+        for nsb in sorted({1, p['nsb'], 2, Wb}):
+            src = an.Antenna(sample_rate=1024.0, num_pols=npol, seed=7)
+            for st in src.streams:
+                st.add_noise(0, 1)
+                st.add_constant_signal(300.0, 0.0, 0.5)
+            be = bk.RawVoltageBackend(src, qz.RealQuantizer(num_bits=8, stats_calc_period=period, stats_calc_num_samples=2), pf.PolyphaseFilterbank(num_taps=2, num_branches=8),
+                                      qz.ComplexQuantizer(num_bits=8, stats_calc_period=period, stats_calc_num_samples=2), start_chan=0, num_chans=4,
+                                      block_size=2 * Wb * 4 * 2 * npol, blocks_per_file=2, num_subblocks=nsb)
+            be.record(os.path.join(d, f'o{nsb}'), num_blocks=2, length_mode='num_blocks', header_dict={}, verbose=False, load_template=False)
+            raw = open(os.path.join(d, f'o{nsb}.0000.raw'), 'rb').read()
+            blocks, pos = [], 0
+            while pos < len(raw):
+                end = raw.index(b'END' + b' ' * 77, pos) + 80
+                blocks.append(raw[end:end + be.block_size])
+                pos = end + be.block_size
+            outs[nsb] = b''.join(blocks)
+        bad = [n for n, v in outs.items() if v != outs[1]]
+    finally:
+        shutil.rmtree(d, ignore_errors=True)
+    return bool(bad), f"period {period}: num_subblocks {bad} record other bytes than num_subblocks=1" if bad else 'all partitions record the same bytes'
+
+
 # ------------------------------------------------------------------ symbolic sizes: sub-block tiling
 def tiling_slice():
     """the size arithmetic of collect_data_block, located in the live AST: the block-level assignments and the
@@ -685,7 +772,7 @@ def replay_record(p):
     return False, 'recorded bytes equal the reference pipeline'
 
 
-REPLAYS = {'record': replay_record, 'array': replay_array}
+REPLAYS = {'record': replay_record, 'array': replay_array, 'partition_real': replay_partition_real}
 
 
 def main():
@@ -720,6 +807,8 @@ def main():
             jobs.append(('job_record', (P, taps, Wb, nsb, 1, 1, 4, 1, 1, 2, 1, False)))
     for (P, taps, Wb, npol, bits) in [(4, 2, 3, 2, 8), (4, 2, 4, 1, 4)] + ([(4, 3, 5, 2, 8), (8, 2, 3, 2, 4)] if ck.thorough else []):
         jobs.append(('job_partition', (P, taps, Wb, npol, bits)))
+    for (period, Wb, npol) in ((-1, 3, 1), (0, 3, 2), (-1, 4, 1), (50, 3, 1)):
+        jobs.append(('job_partition_real_quantizers', (period, Wb, npol)))
     # the real MultiAntennaArray as the source (own + delayed shared background), incl. delays exceeding later requests
     for args in [(4, 2, 3, 3, 1, (0, 3), 2), (4, 2, 3, 3, 1, (0, 10), 2), (4, 2, 3, 2, 2, (2, 0, 1), 3), (4, 2, 3, 2, 1, (0, 9), 2), (4, 1, 4, 3, 1, (5, 0), 2), (4, 2, 2, 1, 1, (0, 17), 2)] + \
                 ([(8, 2, 3, 2, 2, (0, 7), 3), (4, 3, 5, 3, 1, (13, 2, 0), 2), (4, 2, 5, 5, 1, (0, 8), 2)] if ck.thorough else []):
